@@ -229,6 +229,7 @@ type File struct {
 	Sentinels []string // immutable, pairwise distinct, non-nil global values (qualified names)
 	Immutable []string // globals never written outside init (checked by scan)
 	TypeInvs []*TypeInv
+	StoredOnlyIn [][]string // field key followed by the functions allowed to store to it
 	ConstFields []string // struct fields written only while constructing a fresh object (scan)
 	OnlyCalledFrom [][2]string // (callee name, caller): mechanical call-site scan
 	ConstTables []string // globals whose composite-literal initialiser is read from the source
@@ -247,5 +248,6 @@ func (f *File) Merge(g *File) {
 	f.OnlyCalledFrom = append(f.OnlyCalledFrom, g.OnlyCalledFrom...)
 	f.ConstFields = append(f.ConstFields, g.ConstFields...)
 	f.TypeInvs = append(f.TypeInvs, g.TypeInvs...)
+	f.StoredOnlyIn = append(f.StoredOnlyIn, g.StoredOnlyIn...)
 	f.GlobalInvs = append(f.GlobalInvs, g.GlobalInvs...)
 }
